@@ -92,6 +92,21 @@ def mk_sptensor(ttb, A, order=None, dtype=None):
     return ttb.sptensor(subs.astype(int), vals.copy(), tuple(int(s) for s in A.shape))
 
 
+def mk_tensor(ttb, A, hist="ctor"):
+    """Dense holder of ndarray A.  hist="grown": the holder is reached through the library's own history -- a smaller tensor enlarged
+    by an out-of-range subtensor assignment (which leaves a differently laid-out buffer behind than the constructor does)."""
+    A = np.asarray(A)
+    if hist != "grown" or A.ndim == 0 or A.size == 0 or all(s == 1 for s in A.shape):
+        return ttb.tensor(A.copy())
+    small = tuple(slice(0, max(1, (s + 1) // 2)) for s in A.shape)
+    T = ttb.tensor(A[small].copy())
+    key = tuple(slice(0, int(s)) for s in A.shape)
+    T[key] = A.copy()
+    if tuple(int(s) for s in T.shape) != tuple(A.shape) or not np.array_equal(np.asarray(T.data), A):
+        raise AssertionError("growing a dense tensor by subtensor assignment did not produce the assigned array (C04 territory)")
+    return T
+
+
 def mk_ktensor(ttb, weights, factors):
     return ttb.ktensor([np.array(f, dtype=float) for f in factors], np.array(weights, dtype=float))
 
